@@ -48,6 +48,34 @@ FIRST_MISSED_3 = {  # third round (suffixes C, D)
     "C20/C": "a model directory on another file system than the system temp directory (/dev/shm)",
 }
 WEAK_3 = {"C12/D", "C13/C", "C16/D", "C19/C", "C20/C"}
+FIRST_MISSED_4 = {  # fourth round (suffixes E, F)
+    "C02/E": "zero-rich games (mixed-sign singletons, many coalitions worth exactly 0), one per plan entry",
+    "C09/F": "K-budget games at n = 5 under sam_apx_*: random step/unstep walks judged by the environment oracle",
+    "C11/E": "starting knowledge strictly larger than the minimal information in every second search case",
+    "C13/E": "full-length expected-greedy runs (plateau gap l-infinity at n = 3; factory game over all 10 reveals)",
+    "C15/E": "exactly representable games with one huge and several small singletons; the library-tolerance acceptance of the oracle restricted to float inputs (this also exposed the too-lenient guard repaired in 48fc80f)",
+    "C17/F": "bulk bound setters handed vectors with +inf / -inf / NaN, also at known positions",
+    "C19/E": "a run name and metadata strings with a lone surrogate (surrogateescape'd path); a save that raises is a failing input",
+    "C20/E": "after every injected fault the NEXT public save() must work, keep all earlier runs and add its entry",
+    "C20/F": "third fault mode: an I/O error that persists (every later write(2) fails, opens and renames succeed)",
+}
+WEAK_4 = {"C11/F": "the set reported for size r must have r coalitions", "C16/E": "a step with a size the mask allows that raises is a failing input (was: harness exception)"}
+if len(sys.argv) > 1 and sys.argv[1] == "4":
+    for d in sorted(ROOT.iterdir()):
+        for suf in ("E", "F"):
+            m = d / f"meta{suf}.json"
+            if not m.exists():
+                continue
+            meta = json.loads(m.read_text())
+            summ = re.sub(r"\s+", " ", meta.get("summary", ""))[:110].replace("|", "/")
+            log = (d / f"check{suf}.log").read_text() if (d / f"check{suf}.log").exists() else ""
+            concrete = any(l.startswith("VIOLATION") and "no-failing-input-found" not in l for l in log.splitlines())
+            any_v = "VIOLATION" in log
+            now = "caught (failing input)" if concrete else ("caught (no-failing-input-found)" if any_v else "MISSED")
+            key = f"{d.name}/{suf}"
+            first = "caught without a failing input" if key in WEAK_4 else ("missed" if key in FIRST_MISSED_4 else "caught")
+            print(f"| {key} | {summ} | {first} | {FIRST_MISSED_4.get(key, WEAK_4.get(key, ''))} | {now} |")
+    sys.exit(0)
 if len(sys.argv) > 1 and sys.argv[1] == "3":
     for d in sorted(ROOT.iterdir()):
         for suf in ("C", "D"):
